@@ -217,3 +217,19 @@ impl<T: Trace> ForwardFinalization<T> {
         Self(PhantomData)
     }
 }
+
+/// Verification hook (C06): the finalizer lists, for reporting only.
+#[cfg(mmtk_verif)]
+impl<F: Finalizable> FinalizableProcessor<F> {
+    /// `(candidates, ready_for_finalize, nursery_index)`.
+    pub fn verif_lists(&self) -> (Vec<ObjectReference>, Vec<ObjectReference>, usize) {
+        (
+            self.candidates.iter().map(|f| f.get_reference()).collect(),
+            self.ready_for_finalize
+                .iter()
+                .map(|f| f.get_reference())
+                .collect(),
+            self.nursery_index,
+        )
+    }
+}
